@@ -203,7 +203,7 @@ pub struct ConnObs {
 
 pub struct NodeConn {
     pub conn: Connection,
-    pub events: VecDeque<ConnectionEvent>,
+    pub events: VecDeque<(ConnectionEvent, usize, SocketAddr)>,
     pub app_events: VecDeque<Event>,
     pub obs: ConnObs,
     pub removed: bool,
@@ -267,6 +267,10 @@ pub struct Sim {
     pub faults: BTreeMap<&'static str, u64>,
     /// hook: inspect/modify every datagram entering the wire; return false to drop it
     pub wire_filter: Option<Box<dyn FnMut(&mut Dgram, &mut Rng) -> bool>>,
+    /// record model-validation trace lines (request lines for the Lean driver + implementation's answers)
+    pub model_trace: bool,
+    pub model_ops: Vec<String>,
+    pub model_impl: Vec<String>,
 }
 
 pub fn addr(port: u16) -> SocketAddr {
@@ -322,6 +326,9 @@ impl Sim {
             dropped: 0,
             faults: BTreeMap::new(),
             wire_filter: None,
+            model_trace: false,
+            model_ops: Vec::new(),
+            model_impl: Vec::new(),
         }
     }
 
@@ -483,7 +490,7 @@ impl Sim {
             None => {}
             Some(DatagramEvent::ConnectionEvent(ch, ev)) => {
                 if let Some(nc) = self.nodes[node].conns.get_mut(&ch.0) {
-                    nc.events.push_back(ev);
+                    nc.events.push_back((ev, d.data.len(), d.from));
                 }
             }
             Some(DatagramEvent::NewConnection(inc)) => self.on_incoming(node, inc),
@@ -570,8 +577,25 @@ impl Sim {
         // network events
         loop {
             let ev = self.nodes[node].conns.get_mut(&ch).unwrap().events.pop_front();
-            let Some(ev) = ev else { break };
+            let Some((ev, len, from)) = ev else { break };
+            let before = if self.model_trace { Some(self.nodes[node].conns[&ch].conn.verif_snapshot()) } else { None };
             self.nodes[node].conns.get_mut(&ch).unwrap().conn.handle_event(ev);
+            if let Some(b) = before {
+                let a = self.nodes[node].conns[&ch].conn.verif_snapshot();
+                // datagrams from other addresses that did not migrate the path are dropped/ignored by the path model
+                let migrated = a.path.remote != b.path.remote;
+                if self.model_ops.len() < 400_000 {
+                    // a datagram from an address other than the (resulting) path's is not credited to it
+                    let op = if from == a.path.remote { "rx" } else { "foreign" };
+                    self.model_ops.push(format!(
+                        "amp {op} {len} {} {} {} {}",
+                        migrated as u8, b.path.validated as u8, b.path.total_sent, b.path.total_recvd
+                    ));
+                    // an unvalidated path may become validated by any datagram (observed, not predicted)
+                    let v = if !migrated && !b.path.validated { "V".to_string() } else { (a.path.validated as u8).to_string() };
+                    self.model_impl.push(format!("{v} {} {}", a.path.total_sent, a.path.total_recvd));
+                }
+            }
         }
         // endpoint events <-> connection events, transmits
         let mut buf = Vec::with_capacity(1 << 16);
@@ -605,6 +629,23 @@ impl Sim {
                 let Some(t) = t else { break };
                 progressed = true;
                 self.on_transmit(node, ch, &before, &t, &buf);
+                if self.model_trace && t.destination == before.path.remote && self.model_ops.len() < 400_000 {
+                    let a = self.nodes[node].conns[&ch].conn.verif_snapshot();
+                    let seg = t.segment_size.unwrap_or(t.size);
+                    let mut sizes = Vec::new();
+                    let mut off = 0;
+                    while off < t.size {
+                        let l = seg.min(t.size - off);
+                        sizes.push(l.to_string());
+                        off += l;
+                    }
+                    // the gate uses the path MTU for the first datagram and the first datagram's size afterwards
+                    self.model_ops.push(format!(
+                        "amp tx {} {} {} {} {} {}",
+                        seg, before.path.validated as u8, before.path.total_sent, before.path.total_recvd, sizes.len(), sizes.join(" ")
+                    ));
+                    self.model_impl.push(format!("{} {} {} {}", a.path.validated as u8, a.path.total_sent, a.path.total_recvd, sizes.len()));
+                }
                 let data = buf[..t.size].to_vec();
                 self.emit(node, Some(ch), t.destination, t.ecn, t.size, t.segment_size, &data);
             }
